@@ -132,8 +132,16 @@ impl Monitor for C12 {
                 // (text, ends an operand, starts an operand)
                 let mut units: Vec<(&str, bool, bool)> = vec![("2", true, true), ("(3)", true, true), ("abs(4)", true, true), ("²", true, false), ("^2", true, false), ("@", true, true), ("-", false, false), ("*", false, false), ("^", false, false)];
                 let mut extra: Vec<(&str, bool, bool)> = vec![];
-                if ev != Ev::I64 {
+                // values that make the association of a run of factors visible: a zero next to an
+                // overflowing partial product, fractions whose products round (seeded change C12-r9: A B C
+                // built as (A*B)*C)
+                extra.push(("(0)", true, true));
+                if ev == Ev::I64 {
+                    extra.push(("4611686018427387904", true, true));
+                } else {
                     extra.push(("1.5", true, true));
+                    extra.push(("0.1", true, true));
+                    extra.push(("(0.7)", true, true));
                 }
                 if has_fact_mod(ev) {
                     units.push(("!", true, false));
